@@ -230,6 +230,35 @@ theorem rep_opt_never_fail_unless_fatal {g : G} {a : P} {sk : Sk} {inp : List Na
     | sugar hs _ => simp [IsSugar] at hs
     | _ => cases hx
 
+/-- a skipper (epsilon, literal, char_set, their repetitions and sequences) never fails fatally -/
+theorem skipper_never_fatal {sk : Sk} {inp : List Nat} {x : SkRes} (h : SkDerives sk inp x) :
+    ∀ ft, x = .err ft → ft = false := by
+  induction h with
+  | csetEof => intro ft hx; cases hx; rfl
+  | csetNo => intro ft hx; cases hx; rfl
+  | litEof => intro ft hx; cases hx; rfl
+  | litNo => intro ft hx; cases hx; rfl
+  | repFatal _ ih => intro ft hx; exact absurd (ih true rfl) (by simp)
+  | repMore _ _ _ ih2 => intro ft hx; exact ih2 ft hx
+  | seqErr _ ih => intro ft hx; cases hx; exact ih _ rfl
+  | seqOk _ _ _ ih2 => intro ft hx; exact ih2 ft hx
+  | _ => intro ft hx; cases hx
+
+/-- … hence the sharp form of "never fail unless a fatal error occurs": a repetition fails only because one of its
+*elements* failed fatally, on the input left after some number of kept elements (never because of the skipper, never
+because an element failed ordinarily) -/
+theorem rep_fails_only_on_fatal_element {g : G} {a : P} {sk : Sk} {inp : List Nat} {ft : Bool}
+    (h : Derives g (.rep a) sk inp (.err ft)) : ft = true ∧ ∃ inp', Derives g a sk inp' (.err true) := by
+  refine ⟨rep_opt_never_fail_unless_fatal.1 h, ?_⟩
+  generalize hp : P.rep a = p at h
+  generalize hx : Res.err ft = x at h
+  induction h with
+  | repFatal h1 _ => cases hp; exact ⟨_, h1⟩
+  | repFatalS _ h2 _ => exact absurd (skipper_never_fatal h2 true rfl) (by simp)
+  | repMoreErr _ _ _ _ ih => cases hp; cases hx; exact ih rfl rfl
+  | sugar hs _ _ => subst hp; simp [IsSugar] at hs
+  | _ => first | (cases hp; done) | (cases hx; done) | (cases hp; cases hx; done)
+
 /-- **repetition is greedy**: it stops only where one more element-then-skipper fails (non-fatally) -/
 theorem rep_greedy {g : G} {a : P} {sk : Sk} {inp rest : List Nat} {vs : Val}
     (h : Derives g (.rep a) sk inp (.ok vs rest)) :
